@@ -409,8 +409,9 @@ func (n numDatum) Literal(context string) string {
 		return "-Infinity"
 	}
 
-	// ... then the easy ones.
-	return fmt.Sprintf("%v", n.num)
+	// ... then the rest: XPath has no exponent notation (string(1000000) is
+	// "1000000", not "1e+06"); NaN is "NaN".
+	return strconv.FormatFloat(n.num, 'f', -1, 64)
 }
 
 func (n numDatum) Nodeset(context string) []xutils.XpathNode {
